@@ -221,3 +221,174 @@ def c17_math_iterators():
     for i, e in enumerate(exprs):
         text = prelude(2) + "def main(n, m):\n    return %s\n\n\nprint(main(inp() + 2, inp() + 3))\n" % e
         yield Skeleton("mathiter/%d:%s" % (i, e), text, tape=2)
+
+
+# ---------------------------------------------------------------- C16: statement shapes
+import textwrap as _tw
+
+
+def _ind(s, n=1):
+    return _tw.indent(s, "    " * n)
+
+
+C16_ATOMS = ["effect()", "return", "return effect()", "raise E()", "break", "continue", "pass", "assert cond()",
+             "assert False", "assert True", "assert 7000 > 7001", "x = effect()", "assert 0, effect()"]
+C16_TESTS = ["cond()", "True", "False", "7000 > 7001", "1 > 2", "not cond()", "7000"]
+C16_ITERS = ["seq()", "(1, 2)", "()", "range(7002)", "[]", "[effect()]"]
+
+
+def _c16_compounds(bodies, tests, iters, with_else=True):
+    for b in bodies:
+        for t in tests:
+            yield "if %s:\n%s" % (t, _ind(b))
+            yield "while %s:\n%s" % (t, _ind(b))
+        for it in iters:
+            yield "for _ in %s:\n%s" % (it, _ind(b))
+        yield "with cm():\n%s" % _ind(b)
+        yield "try:\n%s\nexcept E:\n    pass" % _ind(b)
+        yield "try:\n%s\nfinally:\n    effect()" % _ind(b)
+    if with_else:
+        eb = [b for b in bodies if b in ("effect()", "return", "raise E()", "break", "continue", "pass",
+                                         "effect()\nreturn", "effect()\ncontinue")]
+        for b1, b2 in itertools.product(eb, repeat=2):
+            for t in tests[:4]:
+                yield "if %s:\n%s\nelse:\n%s" % (t, _ind(b1), _ind(b2))
+            yield "while cond():\n%s\nelse:\n%s" % (_ind(b1), _ind(b2))
+            yield "while True:\n%s\nelse:\n%s" % (_ind(b1), _ind(b2))
+            yield "for _ in seq():\n%s\nelse:\n%s" % (_ind(b1), _ind(b2))
+            yield "for _ in (1, 2):\n%s\nelse:\n%s" % (_ind(b1), _ind(b2))
+            yield "try:\n%s\nexcept E:\n%s" % (_ind(b1), _ind(b2))
+            yield "if cond():\n%s\nelif cond():\n%s\nelse:\n%s" % (_ind(b1), _ind(b2), _ind(b1))
+
+
+C16_PRELUDE_EXTRA = '''class E(Exception):
+    pass
+
+
+class cm:
+    def __enter__(self):
+        return self
+
+    def __exit__(self, *args):
+        return False
+
+
+def seq():
+    return [1, 2][: TAPE.pop() % 3]
+
+
+'''
+
+
+def c16_shapes(tier="quick"):
+    """Statement shapes of nesting <= 2 (quick) / 3 (thorough-sample)."""
+    level0 = list(C16_ATOMS)
+    bodies1 = level0 + ["effect()\n" + b for b in ("return", "break", "continue", "effect()", "raise E()")]
+    level1 = list(_c16_compounds(bodies1, C16_TESTS, C16_ITERS))
+    out = [("s0/%d" % i, s) for i, s in enumerate(level0)] + [("s1/%d" % i, s) for i, s in enumerate(level1)]
+    if tier != "quick":
+        # nesting 3: compounds whose bodies are (a sample of) level-1 compounds
+        inner = [s for i, s in enumerate(level1) if i % 7 == 0]
+        level2 = list(_c16_compounds(inner, ["cond()", "True", "7000 > 7001"], ["seq()", "(1, 2)"], with_else=False))
+        out += [("s2/%d" % i, s) for i, s in enumerate(level2)]
+    return out
+
+
+def c16_program(shape, tape=8):
+    """The shape inside a loop inside a function, followed by an observable statement."""
+    body = "def main():\n    for _k in (1, 2):\n%s\n        print(\"fall\", _k)\n    print(\"after\")\n    return 5\n" % _ind(shape, 2)
+    return prelude(tape) + C16_PRELUDE_EXTRA + body + "\n\nprint(main())\n"
+
+
+def c16_skeletons(tier="quick"):
+    for sid, shape in c16_shapes(tier):
+        lits = {7000: (0, BIG), 7001: (0, BIG), 7002: (0, 3)}
+        yield Skeleton("blk/%s" % sid, c16_program(shape), lits={k: v for k, v in lits.items() if str(k) in shape},
+                       tape=8, fuel=300, meta={"shape": shape})
+
+
+C16_EXPRS = [
+    "pure(a)", "noisy(a)", "calls_noisy(a)", "calls_pure(a)", "[noisy(i) for i in range(2)]", "[pure(i) for i in (1, 2)]",
+    "noisy(a) if a else 0", "a if noisy(a) else 0", "0 if a else noisy(a)", "f'{noisy(a)}'", "f'{a}'", "f'{a:{noisy(2)}}'",
+    "a.real", "[a][0]", "(lambda: noisy(a))()", "(lambda: noisy(a))", "(lambda q=noisy(a): q)", "print(*[a])",
+    "len([noisy(a)])", "abs(a)", "a + noisy(a)", "-noisy(a)", "a < noisy(a)", "a and noisy(a)", "a or noisy(a)",
+    "{noisy(a): 1}", "{1: noisy(a)}", "{noisy(a) for _ in (1,)}", "{k: noisy(k) for k in (1,)}",
+    "{noisy(k): k for k in (1,)}", "[a][noisy(0)]", "[a][noisy(0):1]", "(noisy(a),)", "[*[noisy(a)]]", "[a, *[noisy(a)]]",
+    "str(noisy(a))", "sorted([noisy(a)])", "(noisy(i) for i in (1, 2))", "list(noisy(i) for i in (1, 2))",
+    "[i for i in (1, 2) if noisy(i)]", "[i for i in [noisy(1)]]", "[j for i in (1,) for j in [noisy(i)]]",
+    "a == noisy(a)", "not noisy(a)", "obj.m(a)", "obj.attr", "Obj().m(a)", "Obj()", "Quiet()", "Loud()",
+    "''.join(['x'])", "'x'.upper()", "TAPE.pop()", "effect()", "cond()", "inp()", "max(a, noisy(a))", "a", "7000", "None",
+    "'doc'", "...", "a[0] if 0 else 1", "(yield_ := noisy(a))", "(b := a)", "pure(noisy(a))", "pure(pure(a))",
+    "noisy", "pure", "[pure, noisy][1](a)", "{'k': noisy}['k'](a)", "getattr(obj, 'm')(a)", "print", "print(a)",
+    "isinstance(noisy(a), int)", "int(noisy(a))", "pure(a=noisy(a))", "pure(*[noisy(a)])", "pure(**{'x': noisy(a)})",
+]
+C16_STMTS = [
+    "_ = noisy(a)", "_ = pure(a)", "b = noisy(a)", "b: int = noisy(a)", "a += noisy(a)", "_ += 1", "del a",
+    "for i in (1, 2):\n    pure(i)", "for i in (1, 2):\n    noisy(i)", "for _ in (1, 2):\n    noisy(a)",
+    "for _ in [noisy(a)]:\n    pass", "if a:\n    pure(a)", "if noisy(a):\n    pass", "if a:\n    noisy(a)",
+    "if a:\n    pass\nelse:\n    noisy(a)", "while pure(a) > 100:\n    pass", "with cm():\n    pass", "assert a or not a",
+    "assert noisy(a) or True", "global G", "import math", "def _():\n    pass", "def helper():\n    noisy(1)",
+    "class _:\n    noisy(1)", "lambda: 0", "try:\n    pure(a)\nexcept E:\n    pass", "pass", "return_ = 1",
+    "[noisy(i) for i in (1, 2)]\npure(a)", "_ = [noisy(i) for i in (1, 2)]", "_ = {noisy(a): 1}", "_ = a if noisy(a) else 0",
+    "_ = f'{noisy(a)}'", "_ = (lambda: noisy(a))()", "_ = obj.m(a)", "_[0] = noisy(a)", "_.x = 1",
+]
+C16_EXPR_PRELUDE = '''G = 0
+
+
+def pure(x):
+    return x + 1
+
+
+def noisy(x):
+    print("noisy", x)
+    return x
+
+
+def calls_noisy(x):
+    return noisy(x) + 1
+
+
+def calls_pure(x):
+    return pure(x) + 1
+
+
+class Obj:
+    attr = 3
+
+    def m(self, x):
+        print("m", x)
+        return x
+
+
+class Quiet:
+    def __init__(self):
+        self.v = 1
+
+
+class Loud:
+    def __init__(self):
+        print("Loud")
+
+
+obj = Obj()
+
+
+'''
+
+
+def c16_pointless_skeletons():
+    for i, e in enumerate(C16_EXPRS + C16_STMTS):
+        for pos in ("first", "mid", "last"):
+            stmt = e
+            if pos == "first":
+                body = "%s\n    print(\"end\", a)" % _ind(stmt).strip()
+            elif pos == "mid":
+                body = "print(\"start\")\n%s\n    print(\"end\", a)" % _ind(stmt)
+            else:
+                body = "print(\"start\", a)\n%s" % _ind(stmt)
+            if pos != "mid" and i % 3:
+                continue
+            text = (prelude(4) + C16_PRELUDE_EXTRA + C16_EXPR_PRELUDE
+                    + "def main(a):\n    %s\n    return a\n\n\nprint(main(inp()))\n" % body)
+            yield Skeleton("pointless/%d/%s:%s" % (i, pos, e.replace("\n", "\\n")), text, tape=4, fuel=300,
+                           lits={7000: (0, BIG)} if "7000" in e else {})
